@@ -414,6 +414,8 @@ fn k_{prop}_dist_{hn}() {{
     def ops_for(self, entry, kind):
         ops = entry['_ops']
         skip = entry.get(f'no_{kind}', [])
+        if self.tier == 'thorough' and skip != 'all':
+            skip = [x for x in skip if x not in entry.get(f'thorough_{kind}', [])]
         ops = [o for o in ops if o.name not in skip and skip != 'all']
         if skip == 'all':
             return []
